@@ -78,7 +78,7 @@ class RotationRng(Machine):
                        "negative_angle", "beyond_one_turn", "radians", "tcoords", "returned_transform_mutated",
                        "about_centre_scale", "about_centre_rotate", "about_centre_shear", "about_centre_transform",
                        "scale_factory", "scale_factory_zero_refused", "passed_array_mutated",
-                       "radians_beyond_360", "quat_from_existing_rotation", "about_centre_per_axis_scale", "scale_factory_opposite_signs", "centre_with_zero_coordinate",
+                       "radians_beyond_360", "quat_from_existing_rotation", "quat_from_integer_matrix_rotation", "about_centre_per_axis_scale", "scale_factory_opposite_signs", "centre_with_zero_coordinate",
                        "scale_factory_scalar_zero")
 
     @classmethod
@@ -104,7 +104,7 @@ class RotationRng(Machine):
                       axis=rng.randrange(3), big=int(rng.random() < 0.25))
         elif kind in ("quat", "general3d"):
             op.update(data=rng.getrandbits(32), a=rng.randrange(12), frac=rng.randrange(1000),
-                      half=rng.randrange(2), neg=rng.randrange(2), via=rng.randrange(3))
+                      half=rng.randrange(2), neg=rng.randrange(2), via=rng.randrange(4))
         elif kind == "axis_angle":
             op.update(i=rng.randrange(64), times=rng.randrange(1, 4))
         elif kind == "burn":
@@ -188,9 +188,34 @@ class RotationRng(Machine):
                 if op["neg"] % 2:
                     q[1:] *= -1.0
                     ref = ref.T
-                via = op.get("via", 0) % 3
+                via = op.get("via", 0) % 4
                 olds = [x for x in self.pool if x[2][0] == 3]
-                if via and olds:
+                if via == 3:
+                    # a rotation given as an integer matrix (an axis permutation with signs, det +1; a quarter or a
+                    # third of a turn), then new parameters through from_vector
+                    P = np.zeros((3, 3), dtype=np.int64)
+                    perm = [(1, 2, 0), (2, 0, 1), (0, 2, 1), (2, 1, 0), (1, 0, 2)][op["a"] % 5]
+                    for i_, j_ in enumerate(perm):
+                        P[i_, j_] = 1
+                    if np.linalg.det(P) < 0:
+                        P[op["frac"] % 3] *= -1
+                    try:
+                        base = Rotation(P.copy())
+                        hb = np.array(base.h_matrix, dtype=float)
+                        pb = base.as_vector().copy()
+                        rb = base.from_vector(pb)
+                        ctx.require(float(np.abs(np.asarray(rb.rotation_matrix, dtype=float) - P).max()) < 1e-9, "quaternion_roundtrip",
+                                    "rotation_to_q_to_rotation", lambda: "integer matrix %r came back as %r" % (P.tolist(), np.asarray(rb.rotation_matrix).tolist()))
+                        r = base.from_vector(q.copy()) if op["half"] % 2 else base.copy()
+                        if not op["half"] % 2:
+                            r.from_vector_inplace(q.copy())
+                    except Exception as ex:
+                        ctx.fail("quaternion_roundtrip", "raised_for_integer_matrix", "Rotation(%r) then from_vector: %r" % (P.tolist(), ex))
+                        return
+                    ctx.require(np.array_equal(np.asarray(base.h_matrix, dtype=float), hb), "quaternion_roundtrip",
+                                "from_vector_changed_the_rotation_it_was_called_on")
+                    ctx.probe("quat_from_integer_matrix_rotation")
+                elif via and olds:
                     # the optimiser pattern: read the parameters of an existing rotation, then build the next
                     # one from it with new parameters
                     base = olds[op["a"] % len(olds)][0]
@@ -269,8 +294,14 @@ class RotationRng(Machine):
         shape = SHAPES[op["shape"] % len(SHAPES)]
         arg = [shape, list(shape), np.array(shape)][op["form"] % 3]
         h, w = shape
-        t = tcoords_to_image_coords(arg)
-        ti = image_coords_to_tcoords(arg)
+        try:
+            t = tcoords_to_image_coords(arg)
+            ti = image_coords_to_tcoords(arg)
+        except Exception as ex:
+            ctx.fail("tcoords", "constructor_raised", "image shape %r given as %s: %r" % (shape, type(arg).__name__, ex))
+            return
+        ctx.require(tuple(int(v) for v in arg) == tuple(shape), "tcoords", "shape_argument_modified",
+                    lambda: "the image shape passed as %s came back as %r (was %r)" % (type(arg).__name__, list(arg), shape))
         ctx.probe("tcoords")
         corners = np.array([[0.0, 0.0], [1.0, 0.0], [0.0, 1.0], [1.0, 1.0], [0.5, 0.25]])
         # texture coordinate (s, t): s to the right, t upwards -> pixel (row, col), vertical axis flipped
